@@ -7,6 +7,10 @@ CONSTANTS
   MutDepth = 0
   VarLens = {0,1,2,250,251,252,253,254,255,256,257,258}
   BigLens = {}
+  BodyAlphabet = {}
+  BodyExtra = 0
+  BodyCap = 0
+  RepCap = 0
   ShortIds = {0,1,255,256,257,65534,65535}
   ShortPairIds = {0,1,2,255,256,257,258,65535}
 INIT InitPkt
